@@ -216,6 +216,14 @@ def run(ctx):
                 ans += [rng.choice(["?", "ZZ", "0", "no"]) for _ in range(ctx.n(1300, 6000))]
             ans.append(rng.choice(core.VOCAB[iver[0]]["legal"][m]))
         cases.append((flags, None, ans))
+    from .. import conc, probes as _probes
+    small = [c for c in cases if len(c[2]) < 100 and core.sendable(c[1] or "") and all(core.sendable(x) for x in c[2])]
+    conc.flag_variants(ctx, [["L", argv_of(f, v), a] for f, v, a in small[:: max(1, len(small) // ctx.n(80, 800))]], "cli")
+    # the real command under terminal widths / TERM / colour conventions / locales and with stdout on a pseudo-terminal
+    zero = [("3", "CVSS:3.1/AV:N/AC:L/PR:N/UI:N/S:U/C:N/I:N/A:N", []), ("4", "CVSS:4.0/AV:N/AC:L/AT:N/PR:N/UI:N/VC:N/VI:N/VA:N/SC:N/SI:N/SA:N", []),
+            ("", "CVSS:3.0/AV:N/AC:L/PR:N/UI:N/S:U/C:H/I:H/A:H/MC:N/MI:N/MA:N", []), ("2j", "AV:L/AC:H/Au:M/C:N/I:N/A:N", [])]
+    inter_cases = [c for c in small if not c[1] and c[2]][: ctx.n(6, 40)]
+    conc.cli_environments(ctx, [(argv_of(f, v), a) for f, v, a in zero + inter_cases + small[:: max(1, len(small) // ctx.n(6, 60))]], "cli")
     ctx.count(len(cases))
     ctx.sample({"argv": argv_of(cases[7][0], cases[7][1]), "stdin": cases[7][2]})
     reports = []
